@@ -98,6 +98,16 @@ def build_alphabet(lab):
         if model.natural(g) is t and g != f1 and not model.is_search_string(g) and g.split("/")[-1] not in model.alias and g.split("/")[:-1] != segs[:-1]:
             al["G"] = g
             break
+    # a movie file next to F1 (its type shares the glob of the cache-file type when the extension is open)
+    for u in leaves[1:]:
+        if u.keys == t.keys:
+            for v in vocab.info[u.name][-1]["lits"]:
+                m_ = "/".join(segs[:-1] + [v])
+                if v not in model.alias and model.natural(m_) is u:
+                    al.setdefault("M", m_)
+                    break
+        if "M" in al:
+            break
     return {k: v for k, v in al.items() if v}
 
 
@@ -117,7 +127,12 @@ def ops_alphabet(al):
             ops.append(("set", r, "k2"))
         if r in ("F1", "T", "N", "G"):
             ops.append(("update", r, "k1"))
+        if r in ("F1", "V"):
+            ops.append(("setpos", r, "k1"))      # positional form set(sid, attribute, value), falsy values
     return ops
+
+
+FALSY = [0, False, "", [], None, 0.0]
 
 
 class SeqModel:
@@ -187,6 +202,8 @@ def run_sequence(rec, lab, al, ops, hid, fresh=False, config=None):
     for step, (op, role, key) in enumerate(ops):
         e = al[role]
         val = "%s.%d" % (hid, step)
+        if op == "setpos":
+            val = FALSY[step % len(FALSY)]
         data = {key: val} if key else None
         c = dict(case, step=step)
         if op == "create":
@@ -196,6 +213,8 @@ def run_sequence(rec, lab, al, ops, hid, fresh=False, config=None):
         try:
             if op == "create":
                 got = writer.create(e, data) if data else writer.create(e)
+            elif op == "setpos":
+                got = writer.set(e, key, val)
             elif op == "set":
                 got = writer.set(e, **data)
             else:
